@@ -190,6 +190,21 @@ chk("C10",
     "TLA+ spec + TLC invariants; spec->impl replay of paired spellings, compiled and executed; trace validation",
     "DESIGN.md §5 C10")
 
+chk("C02",
+    "Same CallProtocol/Abi specifications as C01, with the refusal step: a C++ caller may refuse a call whose direct &str argument "
+    "is not valid UTF-8 (RejectedNeverEnters). The catalogue x value vectors is compiled with the real macro, bound by the real "
+    "C++ backend and driven through the generated classes (std::optional, string_view/u16string_view, diplomat::span, structs, "
+    "enum wrapper, references, unique_ptr, diplomat::result, std::string from DiplomatWrite) by a g++ driver under ASan/UBSan/LSan, "
+    "built twice: -std=c++17 (bundled span) and -std=c++20 (std::span). Tokens sent by C++, received by Rust, returned by Rust "
+    "and received by C++ must be equal and equal to the spec's expectation; every direct &str parameter is additionally called "
+    "with invalid UTF-8 and must yield the Utf8Error arm without any RustEnter event; event logs are validated by "
+    "Trace_CallProtocol.tla. The repository's feature_tests crate is built and its own cpp/tests/*.cpp programs are compiled "
+    "against freshly generated headers (with the standard its Makefile uses) and must pass.",
+    "x86-64, g++ 12. result<const T&, Utf8Error> combinations are skipped by the driver generator. std::function callbacks, "
+    "namespaces and renames are exercised through the feature_tests programs.",
+    "TLA+ spec + TLC; spec->impl replay (compiled and executed, two C++ standards) and impl->spec trace validation",
+    "DESIGN.md §5 C02")
+
 NOT_YET = {}
 
 
